@@ -6,11 +6,13 @@ CONSTANTS
  HashSession = TRUE
  HashId = FALSE
  DedupMode = "peer+id"
+ AtomicDedup = TRUE
  AllowRelay = TRUE
  MCCfgs <- Cfg3
  Bodies = {x}
  MaxFSig = 2
  MaxB = 0
+ Conc = 0
  Lists = "attack"
 SYMMETRY Sym
 INVARIANTS AllSigned
